@@ -1,7 +1,7 @@
 From Coq Require Import List NArith Bool.
 From V.C10 Require Import Model.
 From V.Mgr Require Import DialShape DialShapeProofs Model Caps Ledger LedgerInv.
-From V.Tcp Require Model Proofs Theorems Variants VariantTheorems Once.
+From V.Tcp Require Model Proofs Theorems Variants VariantTheorems Once Settle.
 Import ListNotations.
 Open Scope N_scope.
 From V.C05 Require Import Properties.
@@ -334,3 +334,22 @@ Check (C05_tr_open_unparsable_fails :
   forall t s g c l e,
   Tcp.VariantTheorems.treach t s g -> Tcp.Model.caller_ok g (Tcp.Variants.ev_of t (Tcp.Variants.XOpen c l)) = true -> Tcp.Variants.attempts_of t l = [] -> Tcp.Model.polls e = true ->
   In (Tcp.Model.OEv (Tcp.Model.TOpenFailure c)) (snd (Tcp.Variants.tstep t (fst (Tcp.Variants.tstep t s (Tcp.Variants.XOpen c l))) (Tcp.Variants.XEv e)))).
+Check (C05_tcp_can_always_settle :
+  forall s g,
+  Tcp.Theorems.reach s g ->
+  exists es, forallb Tcp.Settle.env_ev es = true /\
+             Tcp.Theorems.reach (fst (Tcp.Settle.runG s g es)) (snd (Tcp.Settle.runG s g es)) /\
+             Tcp.Model.g_open (snd (Tcp.Settle.runG s g es)) = [] /\ Tcp.Model.g_neg (snd (Tcp.Settle.runG s g es)) = []).
+Check (C05_tcp_env_removes_only_by_answer :
+  forall s g e c,
+  Tcp.Settle.env_ev e = true ->
+  (In c (Tcp.Model.g_open g) -> ~ In c (Tcp.Model.g_open (Tcp.Model.gstep e (snd (Tcp.Model.step s e)) g)) ->
+   exists o, In o (snd (Tcp.Model.step s e)) /\ Tcp.Settle.answers_open c o) /\
+  (In c (Tcp.Model.g_neg g) -> ~ In c (Tcp.Model.g_neg (Tcp.Model.gstep e (snd (Tcp.Model.step s e)) g)) ->
+   exists o, In o (snd (Tcp.Model.step s e)) /\ Tcp.Settle.answers_neg c o)).
+Check (C05_tr_can_always_settle :
+  forall t s g,
+  Tcp.VariantTheorems.treach t s g ->
+  exists es, forallb Tcp.Settle.env_ev es = true /\
+             Tcp.VariantTheorems.treach t (fst (Tcp.Settle.runG s g es)) (snd (Tcp.Settle.runG s g es)) /\
+             Tcp.Model.g_open (snd (Tcp.Settle.runG s g es)) = [] /\ Tcp.Model.g_neg (snd (Tcp.Settle.runG s g es)) = []).
